@@ -146,15 +146,41 @@ def Concl (s : St) (r : Rec) (k : Nat) (h' : Handle) (s' : St) : Prop :=
   s'.hs = s.hs ∧ RecViewL s'.regions s'.ctrls h' (Recycle.reserve r k) ∧
   allocCount s'.events + r.allocs = allocCount s.events + (Recycle.reserve r k).allocs
 
+/-! ## the part of the invariant the allocation decisions depend on -/
+
+/-- What `mutReserve` needs to know about the state to take its decision for the handle `h`: W1, the
+representation invariant of `h` itself, and — for every live control block — a positive count and the
+buffer it names.  The handle table is not mentioned, so `WInv` also holds in the intermediate states of
+an operation in which the table and the reference counts are temporarily out of step (`unsplit`). -/
+structure WInv (s : St) (h : Handle) : Prop where
+  regs : ∀ (r : Nat) (rg : Region), s.regions[r]? = some rg → regionOKB rg = true
+  hok : handleOKL s.regions s.ctrls h = true
+  cok : ∀ (c : Nat) (e : CtrlE), s.ctrls[c]? = some e → e.live = true →
+    1 ≤ e.rc ∧ ctrlBufOK s.regions s.owners e.c
+
+theorem winv_of_inv {s : St} (hI : Inv s) {i : Nat} {h : Handle} (hi : s.hs[i]? = some (some h)) : WInv s h :=
+  ⟨hI.regs, hI.hok i h hi, fun c e he hl => (hI.cok c e he hl).2⟩
+
+/-- `WInv` does not look at the handle table or the event list -/
+theorem WInv.congr {s t : St} {h : Handle} (hW : WInv s h) (hR : t.regions = s.regions)
+    (hC : t.ctrls = s.ctrls) (hO : t.owners = s.owners) : WInv t h :=
+  ⟨by rw [hR]; exact hW.regs, by rw [hR, hC]; exact hW.hok, by rw [hR, hC, hO]; exact hW.cok⟩
+
+theorem WInv.cok' {s : St} {h : Handle} (hW : WInv s h) {c : Nat} {ct : Ctrl}
+    (hc : liveCtrlL s.ctrls c = some ct) :
+    ∃ e, s.ctrls[c]? = some e ∧ e.live = true ∧ e.c = ct ∧ 1 ≤ e.rc ∧ ctrlBufOK s.regions s.owners ct := by
+  obtain ⟨e, he, hl, rfl⟩ := liveCtrlL_some_iff.mp hc
+  exact ⟨e, he, hl, rfl, hW.cok c e he hl⟩
+
 /-! ## KIND_VEC -/
 
-theorem rr_vec {s : St} (hI : Inv s) (cfg : Cfg) (e : Env) {i : Nat} {reg : Option Nat}
-    {off len cap orig : Nat} (hi : s.hs[i]? = some (some (.mut none reg off len cap orig)))
+theorem rr_vec {s : St} {reg : Option Nat} {off len cap orig : Nat}
+    (hI : WInv s (.mut none reg off len cap orig)) (cfg : Cfg) (e : Env)
     (k : Nat) (hadd : ¬ k ≤ cap - len) (r : Rec)
     (hv : RecView s (.mut none reg off len cap orig) r) {h' : Handle} {s' : St}
     (hok : mutReserve cfg e (.mut none reg off len cap orig) k s = .ok h' s') :
     Concl s r k h' s' := by
-  have hok0 := hI.hok i _ hi
+  have hok0 := hI.hok
   obtain ⟨hlc, hoffb, hregc, hrd⟩ := handleOKL_mutV.mp hok0
   obtain ⟨v, hv0⟩ := Option.isSome_iff_exists.mp hrd
   have hvl := rdL_length hI.regs hv0
@@ -267,19 +293,19 @@ theorem rr_vec {s : St} (hI : Inv s) (cfg : Cfg) (e : Env) {i : Nat} {reg : Opti
 
 /-! ## KIND_ARC -/
 
-theorem rr_arc {s : St} (hI : Inv s) (cfg : Cfg) (e : Env) {i c : Nat} {reg : Option Nat}
-    {off len cap orig : Nat} (hi : s.hs[i]? = some (some (.mut (some c) reg off len cap orig)))
+theorem rr_arc {s : St} {c : Nat} {reg : Option Nat} {off len cap orig : Nat}
+    (hI : WInv s (.mut (some c) reg off len cap orig)) (cfg : Cfg) (e : Env)
     (k : Nat) (hadd : ¬ k ≤ cap - len) (r : Rec)
     (hv : RecView s (.mut (some c) reg off len cap orig) r) {h' : Handle} {s' : St}
     (hok : mutReserve cfg e (.mut (some c) reg off len cap orig) k s = .ok h' s') :
     Concl s r k h' s' := by
-  have hok0 := hI.hok i _ hi
+  have hok0 := hI.hok
   obtain ⟨hlc, ⟨vlen, vcap, vorig, hlivec, hcap⟩, hrd⟩ := handleOKL_mutA.mp hok0
   obtain ⟨v, hv0⟩ := Option.isSome_iff_exists.mp hrd
   have hvl := rdL_length hI.regs hv0
-  obtain ⟨ce, he, hl, hct, hrc, hrc1, hbuf⟩ := hI.cok' hlivec
+  obtain ⟨ce, he, hl, hct, hrc1, hbuf⟩ := hI.cok' hlivec
   obtain ⟨ct, rc, live⟩ := ce
-  simp only at hl hct hrc hrc1
+  simp only at hl hct hrc1
   subst hl hct
   -- the record sees the same control block
   obtain ⟨vreg', vlen', vcap', vorig', rc', he', ra, ro, rl, rcp, rorig, rA, rp⟩ := RecView_arc.mp hv
@@ -521,13 +547,12 @@ def setH (s : St) (i : Nat) (h : Handle) : St := { s with hs := s.hs.set i (some
 /-- **`mutReserve` refines `Recycle.reserve`** (strong form: the witness is `Recycle.reserve r k`
 itself; `pinned` and `allocs` are not constrained by `RecView`, the allocation count is tied to the
 event list of M1 in additive form).  No side condition beyond the invariant was needed. -/
-theorem reserve_refines_strong (cfg : Cfg) (e : Env) {s : St} (hI : Inv s) {i : Nat}
-    {arc reg : Option Nat} {off len cap orig : Nat}
-    (hi : s.hs[i]? = some (some (.mut arc reg off len cap orig))) (k : Nat) (r : Rec)
+theorem reserve_refines_w (cfg : Cfg) (e : Env) {s : St} {arc reg : Option Nat} {off len cap orig : Nat}
+    (hI : WInv s (.mut arc reg off len cap orig)) (k : Nat) (r : Rec)
     (hv : RecView s (.mut arc reg off len cap orig) r) (h' : Handle) (s' : St)
     (hok : mutReserve cfg e (.mut arc reg off len cap orig) k s = .ok h' s') :
-    s'.hs = s.hs ∧ RecView (setH s' i h') h' (Recycle.reserve r k) ∧
-    allocCount s'.events + r.allocs = allocCount s.events + (Recycle.reserve r k).allocs := by
+    Concl s r k h' s' := by
+  unfold Concl
   by_cases hadd : k ≤ cap - len
   · -- enough spare capacity: nothing happens in either model
     have h1 : mutReserve cfg e (.mut arc reg off len cap orig) k s = .ok (.mut arc reg off len cap orig) s := by
@@ -543,8 +568,17 @@ theorem reserve_refines_strong (cfg : Cfg) (e : Env) {s : St} (hI : Inv s) {i : 
     rw [e1]
     exact ⟨rfl, hv, rfl⟩
   · cases arc with
-    | none => exact rr_vec hI cfg e hi k hadd r hv hok
-    | some c => exact rr_arc hI cfg e hi k hadd r hv hok
+    | none => exact rr_vec hI cfg e k hadd r hv hok
+    | some c => exact rr_arc hI cfg e k hadd r hv hok
+
+theorem reserve_refines_strong (cfg : Cfg) (e : Env) {s : St} (hI : Inv s) {i : Nat}
+    {arc reg : Option Nat} {off len cap orig : Nat}
+    (hi : s.hs[i]? = some (some (.mut arc reg off len cap orig))) (k : Nat) (r : Rec)
+    (hv : RecView s (.mut arc reg off len cap orig) r) (h' : Handle) (s' : St)
+    (hok : mutReserve cfg e (.mut arc reg off len cap orig) k s = .ok h' s') :
+    s'.hs = s.hs ∧ RecView (setH s' i h') h' (Recycle.reserve r k) ∧
+    allocCount s'.events + r.allocs = allocCount s.events + (Recycle.reserve r k).allocs :=
+  reserve_refines_w cfg e (winv_of_inv hI hi) k r hv h' s' hok
 
 /-- **`mutReserve` refines `Recycle.reserve`**, in the shape of the assignment: some record related to
 the new handle in the new state agrees with `Recycle.reserve r k` on every field `RecView` constrains,
